@@ -11,6 +11,7 @@ pub mod re {
     pub use ctr;
     pub use cts;
     pub use belt_block;
+    pub use belt_ctr;
     pub use cipher;
     pub use kuznyechik;
     pub use magma;
